@@ -12,7 +12,11 @@ pub fn jpeg_to_image(image: &BlpJpeg, mipmap_level: usize) -> Result<DynamicImag
     let raw_jpeg = image
         .full_jpeg(mipmap_level)
         .ok_or(Error::MissingImage(mipmap_level))?;
-    let jpeg = ImageReader::with_format(Cursor::new(raw_jpeg), ImageFormat::Jpeg).decode()?;
+    // The JPEG decoder can panic on malformed streams: report that as a missing image
+    let jpeg = std::panic::catch_unwind(std::panic::AssertUnwindSafe(|| {
+        ImageReader::with_format(Cursor::new(raw_jpeg), ImageFormat::Jpeg).decode()
+    }))
+    .map_err(|_| Error::MissingImage(mipmap_level))??;
     let mut rgba = jpeg.into_rgba8();
     switch_red_blue(&mut rgba);
     Ok(DynamicImage::ImageRgba8(rgba))
